@@ -82,9 +82,13 @@ class Bench:
         self.root = tempfile.mkdtemp(prefix="verif_c18_", dir=base)
         os.makedirs(os.path.join(self.root, "0"))
         self.path = os.path.join(self.root, "0", "std.out")
-        stub_cls = type("_BackendStub", (), {"trial_path": LocalBackend.trial_path, "stdout": LocalBackend.stdout})
-        self.stub = stub_cls()
-        self.stub.local_path = Path(self.root)
+        # a real LocalBackend object (constructor run), pointed at the scratch directory: only its stdout() is used
+        entry = os.path.join(self.root, "job.py")
+        with open(entry, "w") as f:
+            f.write("# never started\n")
+        self._entry = entry
+        self._LocalBackend = LocalBackend
+        self.stub = None
         self.now_wall, self.now_perf, self.wall_reads = 0.0, PERF0, 0
         self.saved = {n: getattr(R, n) for n in ("time", "perf_counter") if callable(getattr(R, n, None))}
         if "time" in self.saved:
@@ -196,6 +200,10 @@ class Bench:
             f.write(data)
         got = None
         try:
+            # a fresh backend object per stream (std.out is rewritten from scratch for every case: an implementation that
+            # remembers what it has read of an append-only file must not be confused by the bench)
+            self.stub = self._LocalBackend(entry_point=self._entry, rotate_gpus=False)
+            self.stub.local_path = Path(self.root)
             lines = self.stub.stdout(trial_id=0)  # the real LocalBackend.stdout: open(...,"r").readlines()
         except Exception as e:  # noqa: BLE001
             flag("stdout:raises:" + type(e).__name__, "LocalBackend.stdout: " + str(e)[:160])
@@ -218,6 +226,32 @@ class Bench:
             else:
                 if got is None or (got2 != got and not A.same(got2, got)):
                     self.check(got2, expected, "retrieve[no-eol]", flag)
+        # the backend polls while the job is still writing: the same backend object reads the (append-only) file when only a
+        # prefix is there - cut inside and between lines - and again when all of it is; the second reading must give the
+        # same reports as reading the complete file once
+        if isinstance(got, list) and 0 < len(data) <= 600 and len(items) <= 2 and case.get("two_reads", True):
+            cuts = set()
+            pos = 0
+            for ln in data.split(b"\n"):
+                cuts.update({pos + len(ln) // 2, pos + len(ln), pos + len(ln) + 1})
+                pos += len(ln) + 1
+            for cut in sorted(c for c in cuts if 0 < c < len(data)):
+                try:
+                    with open(self.path, "wb") as f:
+                        f.write(data[:cut])
+                    b2 = self._LocalBackend(entry_point=self._entry, rotate_gpus=False)
+                    b2.local_path = Path(self.root)
+                    b2.stdout(trial_id=0)
+                    with open(self.path, "ab") as f:
+                        f.write(data[cut:])
+                    again = self.R.retrieve(log_lines=b2.stdout(trial_id=0))
+                except Exception as e:  # noqa: BLE001
+                    flag("two-reads:raises:" + type(e).__name__, "poll after %d of %d bytes: %s" % (cut, len(data), str(e)[:120]))
+                    break
+                if again != got and not A.same(again, got):
+                    flag("two-reads:differs-from-one-read", "a poll after %d of %d bytes, then a poll of the whole file: %d reports "
+                                                            "retrieved, one reading of the whole file gives %d" % (cut, len(data), len(again), len(got)))
+                    break
         res = {"clauses": list(clauses.items()), "attempts": attempts,
                "n_got": len(got) if isinstance(got, list) else -1, "digest": hash(data), "n_bytes": len(data)}
         if keep:
